@@ -313,6 +313,8 @@ def rule_own_context(ctx):
         "ALTER TABLE SET COMMENT": ("CUR_DB", "CUR_SCHEMA"),
         # a schema named without its database is this session's schema of that name, not every database's
         "SHOW TABLES IN SCHEMA": ("CUR_DB", "S"),
+        # a database named in the statement is the one listed, whatever the session's current database is
+        "SHOW SCHEMAS IN DATABASE": ("D",),
     }
     # the same statements at the two other qualification levels: a given part is used as given, a missing one comes
     # from the context ("an unqualified or schema-qualified object name ... denotes exactly the object the fully
@@ -366,6 +368,46 @@ def rule_own_context(ctx):
 
 from .c14 import rule_typestate as rule_connect_context  # noqa: E402  (the context set at connect is part of C03)
 
+def rule_context_read_at_statement_time(ctx):
+    """C03.h: a cursor reads the session's context when a statement runs, not when the cursor was made: after the connection's
+    database changed (USE DATABASE on this or another cursor of the connection), SHOW … on an *older* cursor is filled with the
+    new database."""
+    import ast as _ast
+
+    from ..execmodel import ExecHooks, descriptor, make_session
+    from ..interp import Env, explore
+    from ..values import ClsRef, Sym
+
+    prog = ctx.prog
+    n = 0
+    for kind in ("SHOW SCHEMAS", "SHOW PRIMARY KEYS", "SHOW TABLES IN SCHEMA"):
+        def run(I, kind=kind):
+            duck, conn, _cur = make_session()
+            cur = I.construct(ClsRef("fakesnow.cursor.FakeSnowflakeCursor"), [conn, duck, Const(False)], {}, None)  # made before the USE
+            env = Env("cursor", "<harness>")
+            env.vars["conn"] = conn
+            env.vars["v"] = Sym("NEW_DB", typ="str", truthy=True, origin=("upper", ("input", "NEW_DB")), distinct=True)
+            I.st(_ast.parse("conn.database = v").body[0], env)  # what USE DATABASE does to the connection
+            return I.call(I.getattr(cur, "_transform"), [descriptor(kind)], {}, None)
+
+        for p in explore(prog, lambda: ExecHooks(None), run, max_paths=16):
+            if p.outcome != "return":
+                continue
+            n += 1
+            root = p.value
+            src = getattr(root, "parsed_from", None)
+            txt = text_of(src) if src is not None else tagof(root)
+            ok = "{NEW_DB}" in txt and "{CUR_DB}" not in txt
+            ctx.ob("C03.h", f"{kind} on a cursor made before the database changed uses the new current database", ok, "fakesnow/cursor.py",
+                   "" if ok else txt[:80])
+            if not ok:
+                ctx.violation("C03.h", "cursor", "FakeSnowflakeCursor._transform", f"{kind}: context captured when the cursor was made", "fakesnow/cursor.py",
+                              f"after the connection's database changed, `{kind}` on a cursor created earlier is still filled with the old database "
+                              f"(`{'{CUR_DB}' if '{CUR_DB}' in txt else txt[:60]}`): the cursor captured the session context at construction")
+            break
+    ctx.floor("C03.h statements", n, 3)
+
+
 def rule_pandas_create_target(ctx):
     """C03.g = C01.c6: a table write_pandas creates for a load into `<database>.<schema>.<table>` is created under that name,
     not under the session's current schema (imported lazily: c01 imports from this module's siblings)."""
@@ -374,6 +416,7 @@ def rule_pandas_create_target(ctx):
 
 
 RULES = [
+    ("C03.h", rule_context_read_at_statement_time, ("quick", "thorough")),
     ("C03.g", rule_pandas_create_target, ("quick", "thorough")),
     ("C03.f", rule_connect_context, ("quick", "thorough")),
     ("C03.a", rule_handle, ("quick", "thorough")),
